@@ -27,9 +27,13 @@ func init() {
 
 // boundaryCoef: the first n digits of a word boundary (possibly divided by a power of ten), +- a few units
 func (g *Gen) boundaryCoef() *big.Int {
-	if g.r.Intn(5) == 0 {
+	switch g.r.Intn(10) {
+	case 0, 1:
 		c, _ := g.wordCoefRandom()
 		return c
+	case 2:
+		bc := bitCoefs()
+		return bc[g.r.Intn(len(bc))]
 	}
 	return g.boundaryCoefOf(boundaryWords[g.r.Intn(len(boundaryWords))])
 }
